@@ -558,3 +558,141 @@ package ackhandler
 //@   props C10
 //@   ensures implies(typeis(h, *uSentPacketHandler), dyn(h, *uSentPacketHandler).initialPacketNumberBase == base && samearray(dyn(h, *uSentPacketHandler).initialPacketNumberLengths, pnLens) && len(dyn(h, *uSentPacketHandler).initialPacketNumberLengths) == len(pnLens))
 //@   modifies dyn(h, *uSentPacketHandler).initialPacketNumberBase, dyn(h, *uSentPacketHandler).initialPacketNumberLengths
+
+// ---------------- loop bodies of range-over-func loops, verified as functions (C06) ----------------
+// go/ssa lowers `for x := range seq { body }` to a function literal F$k(x) bool called by the iterator. The body is put
+// under contract like any other function; captured variables are named as in the source.
+
+//@ func (h *sentPacketHandler) detectAndRemoveAckedPackets$1
+//@   props C06
+//@   requires ack != nil && ack.rangesValid()
+//@   ensures [skipped-acked-is-protocol-violation] implies(wire.ackcovers(ack, arg0), !result && iserr(_1, qerr.ProtocolViolation) && !hasAckEliciting)
+//@   ensures [no-error-otherwise] implies(!wire.ackcovers(ack, arg0), _1 == old(_1) && hasAckEliciting == old(hasAckEliciting))
+//@   modifies _0, _1, hasAckEliciting
+
+//@ func (h *sentPacketHandler) MigratedPath$1
+//@   props C06
+//@   let sp = h.appDataPackets
+//@   requires h != nil && sp != nil && arg1 != nil && 0 <= h.bytesInFlight && 0 <= arg1.Length && (!arg1.includedInBytesInFlight || arg1.Length <= h.bytesInFlight)
+//@   requires sp.history.hInv() && forall(k, 0, len(sp.history.packets), implies(sp.history.packets[k] != nil && !sp.history.packets[k].IsPathMTUProbePacket && !sp.history.packets[k].isPathProbePacket && (len(sp.history.packets[k].StreamFrames) > 0 || len(sp.history.packets[k].Frames) > 0), sp.history.numOutstanding >= 1), trig(sp.history.packets, k))
+//@   requires implies(len(sp.history.packets) > 0 && sp.history.firstPacketNumber <= arg0 && arg0 <= sp.history.highestPacketNumber, sp.history.packets[arg0 - sp.history.firstPacketNumber] != nil)
+//@   let counted = old(arg1.includedInBytesInFlight) && !arg1.isPathProbePacket
+//@   ensures [every-packet-declared-lost] called("(*sentPacketHistory).DeclareLost") == 1
+//@   ensures [flight-accounting-once] h.bytesInFlight == old(h.bytesInFlight) - ite(counted, arg1.Length, 0) && implies(!arg1.isPathProbePacket, !arg1.includedInBytesInFlight)
+//@   ensures [retransmit-iff-ack-eliciting] called("(*sentPacketHandler).queueFramesForRetransmission") == ite(!arg1.isPathProbePacket && (old(len(arg1.Frames)) > 0 || old(len(arg1.StreamFrames)) > 0), 1, 0)
+//@   ensures [loop-continues] result
+//@   modifies h.bytesInFlight, arg1.includedInBytesInFlight, arg1.StreamFrames, arg1.Frames, sp.history.numOutstanding, sp.history.packets, sp.history.packets[*], sp.history.firstPacketNumber
+
+//@ func (h *sentPacketHistory) RemovePathProbe
+//@   trusted in-place deletion with copy() over struct elements (copy of struct elements is outside the verified subset)
+//@   ensures [at-most-one] len(h.pathProbePackets) == old(len(h.pathProbePackets)) || len(h.pathProbePackets) == old(len(h.pathProbePackets)) - 1
+//@   ensures [found-iff-removed] iff(result != nil, len(h.pathProbePackets) == old(len(h.pathProbePackets)) - 1) || result == nil
+//@   modifies h.pathProbePackets, h.pathProbePackets[*]
+
+
+//@ func (h *sentPacketHandler) detectAndRemoveAckedPackets$2
+//@   props C06
+//@   let nr = len(ack.AckRanges)
+//@   requires ack != nil && ack.rangesValid() && h != nil && pnSpace != nil && arg1 != nil
+//@   requires lowestAcked == ack.AckRanges[nr - 1].Smallest && largestAcked == ack.AckRanges[0].Largest && 0 <= ackRangeIndex && ackRangeIndex <= nr - 1
+//@   let appended = len(h.ackedPackets) - old(len(h.ackedPackets))
+//@   ensures [only-acknowledged-packets-are-acked] (appended == 0 || appended == 1) && implies(appended == 1, wire.ackcovers(ack, arg0))
+//@   ensures [range-cursor-monotone] old(ackRangeIndex) <= ackRangeIndex && ackRangeIndex <= nr - 1
+//@   ensures [ack-eliciting-only-from-acked] implies(hasAckEliciting && !old(hasAckEliciting), appended == 1 && (len(arg1.StreamFrames) > 0 || len(arg1.Frames) > 0))
+//@   ensures [stops-beyond-largest] implies(arg0 > largestAcked, !result && appended == 0)
+//@   modifies h.ackedPackets, elems(packetWithPacketNumber), ackRangeIndex, hasAckEliciting, _0, _1, pnSpace.history.pathProbePackets, pnSpace.history.pathProbePackets[*]
+//@ loop (h *sentPacketHandler) detectAndRemoveAckedPackets$2 #0
+//@   invariant 0 <= ackRangeIndex && ackRangeIndex <= nr - 1 && old(ackRangeIndex) <= ackRangeIndex
+//@   invariant ackRange.Smallest == ack.AckRanges[nr - 1 - ackRangeIndex].Smallest && ackRange.Largest == ack.AckRanges[nr - 1 - ackRangeIndex].Largest
+//@   modifies ackRangeIndex
+
+//@ func (h *sentPacketHistory) Difference
+//@   props C06
+//@   requires len(h.skippedPackets) <= 4 && -1 <= b && b <= a && a <= 4611686018427387903
+//@   ensures [bounds] a - b - len(h.skippedPackets) <= result && result <= a - b
+//@   ensures [no-skips] implies(len(h.skippedPackets) == 0, result == a - b)
+//@   modifies nothing
+//@ loop (h *sentPacketHistory) Difference #0
+//@   invariant 0 <= rangeidx && rangeidx <= len(h.skippedPackets) && a - b - rangeidx <= diff && diff <= a - b
+//@   modifies nothing
+
+//@ func (t *lostPacketTracker) Add
+//@   props C06
+//@   requires t.maxLength >= 1 && len(t.lostPackets) <= t.maxLength
+//@   ensures [bounded] len(t.lostPackets) <= t.maxLength && len(t.lostPackets) >= 1
+//@   modifies t.lostPackets, elems(lostPacket)
+
+//@ func (h *sentPacketHandler) detectLostPackets$1
+//@   props C06
+//@   let sp = pnSpace
+//@   requires h != nil && sp != nil && arg1 != nil && h.congestion != nil && 0 <= h.bytesInFlight && 0 <= arg1.Length && (!arg1.includedInBytesInFlight || arg1.Length <= h.bytesInFlight)
+//@   requires h.lostPackets.maxLength >= 1 && len(h.lostPackets.lostPackets) <= h.lostPackets.maxLength && -1 <= arg0 && sp.largestAcked <= 4611686018427387903 && 1 <= arg1.EncryptionLevel && arg1.EncryptionLevel <= 4
+//@   requires sp.history.hInv() && forall(k, 0, len(sp.history.packets), implies(sp.history.packets[k] != nil && !sp.history.packets[k].IsPathMTUProbePacket && !sp.history.packets[k].isPathProbePacket && (len(sp.history.packets[k].StreamFrames) > 0 || len(sp.history.packets[k].Frames) > 0), sp.history.numOutstanding >= 1), trig(sp.history.packets, k))
+//@   requires implies(len(sp.history.packets) > 0 && sp.history.firstPacketNumber <= arg0 && arg0 <= sp.history.highestPacketNumber, sp.history.packets[arg0 - sp.history.firstPacketNumber] != nil)
+//@   let elic = !arg1.isPathProbePacket && (old(len(arg1.Frames)) > 0 || old(len(arg1.StreamFrames)) > 0)
+//@   let declared = called("(*sentPacketHistory).DeclareLost")
+//@   ensures [never-beyond-largest-acked] implies(arg0 > old(sp.largestAcked), !result && declared == 0 && h.bytesInFlight == old(h.bytesInFlight))
+//@   ensures [declared-at-most-once] declared <= 1
+//@   ensures [flight-accounting-once] h.bytesInFlight == old(h.bytesInFlight) - ite(declared == 1 && elic && old(arg1.includedInBytesInFlight), arg1.Length, 0)
+//@   ensures [retransmit-iff-lost-and-eliciting] called("(*sentPacketHandler).queueFramesForRetransmission") == ite(declared == 1 && elic, 1, 0)
+//@   ensures [congestion-event-iff] called("(congestion.SendAlgorithmWithDebugInfos).OnCongestionEvent") == ite(declared == 1 && elic && !arg1.IsPathMTUProbePacket, 1, 0)
+//@   ensures [time-threshold] implies(arg0 <= old(sp.largestAcked) && arg1.SendTime <= lostSendTime, declared == 1)
+//@   ensures [not-lost-untouched] implies(declared == 0, len(arg1.Frames) == old(len(arg1.Frames)) && len(arg1.StreamFrames) == old(len(arg1.StreamFrames)) && arg1.includedInBytesInFlight == old(arg1.includedInBytesInFlight))
+//@   modifies h.bytesInFlight, arg1.includedInBytesInFlight, arg1.StreamFrames, arg1.Frames, sp.lossTime, sp.history.numOutstanding, sp.history.packets, sp.history.packets[*], sp.history.firstPacketNumber, h.lostPackets.lostPackets, elems(lostPacket)
+
+//@ func (h *sentPacketHandler) DropPackets$1
+//@   props C06
+//@   requires h != nil && arg1 != nil && 0 <= h.bytesInFlight && 0 <= arg1.Length && (!arg1.includedInBytesInFlight || arg1.Length <= h.bytesInFlight)
+//@   ensures [flight-accounting-once] h.bytesInFlight == old(h.bytesInFlight) - ite(old(arg1.includedInBytesInFlight), arg1.Length, 0) && !arg1.includedInBytesInFlight
+//@   ensures [loop-continues] result
+//@   modifies h.bytesInFlight, arg1.includedInBytesInFlight
+
+//@ func (h *sentPacketHandler) ResetForRetry$1
+//@   props C06
+//@   requires h != nil && arg1 != nil
+//@   ensures [retransmit-iff-ack-eliciting] called("(*sentPacketHandler).queueFramesForRetransmission") == ite(old(len(arg1.Frames)) > 0 || old(len(arg1.StreamFrames)) > 0, 1, 0)
+//@   ensures [first-send-time-kept] implies(old(firstPacketSendTime) != 0, firstPacketSendTime == old(firstPacketSendTime))
+//@   ensures [loop-continues] result
+//@   modifies arg1.StreamFrames, arg1.Frames, firstPacketSendTime
+
+//@ func (h *sentPacketHandler) ResetForRetry$2
+//@   props C06
+//@   requires h != nil && arg1 != nil
+//@   ensures [retransmit-iff-ack-eliciting] called("(*sentPacketHandler).queueFramesForRetransmission") == ite(old(len(arg1.Frames)) > 0 || old(len(arg1.StreamFrames)) > 0, 1, 0)
+//@   ensures [loop-continues] result
+//@   modifies arg1.StreamFrames, arg1.Frames
+
+//@ func (h *sentPacketHandler) MigratedPath$2
+//@   props C06
+//@   requires h != nil && h.appDataPackets != nil
+//@   ensures [probe-removed] called("(*sentPacketHistory).RemovePathProbe") == 1 && result
+//@   modifies h.appDataPackets.history.pathProbePackets, h.appDataPackets.history.pathProbePackets[*]
+
+//@ func (h *sentPacketHistory) Remove
+//@   props C06
+//@   requires h.hInv() && forall(k, 0, len(h.packets), implies(h.packets[k] != nil && !h.packets[k].IsPathMTUProbePacket && !h.packets[k].isPathProbePacket && (len(h.packets[k].StreamFrames) > 0 || len(h.packets[k].Frames) > 0), h.numOutstanding >= 1), trig(h.packets, k))
+//@   requires implies(len(h.packets) > 0 && h.firstPacketNumber <= pn && pn <= h.highestPacketNumber, h.packets[pn - h.firstPacketNumber] != nil)
+//@   let found = old(len(h.packets)) > 0 && old(h.firstPacketNumber) <= pn && pn <= old(h.highestPacketNumber)
+//@   ensures [not-found-iff-error] iff(result != nil, !found)
+//@   ensures [miss-noop] implies(!found, len(h.packets) == old(len(h.packets)) && h.numOutstanding == old(h.numOutstanding))
+//@   ensures [outstanding] h.numOutstanding == old(h.numOutstanding) || h.numOutstanding == old(h.numOutstanding) - 1
+//@   ensures [inv-shape] len(h.packets) == 0 || h.packets[0] != nil
+//@   ensures [highest-kept] h.highestPacketNumber == old(h.highestPacketNumber)
+//@   modifies h.numOutstanding, h.packets, h.packets[*], h.firstPacketNumber
+//@ loop (h *sentPacketHistory) Remove #0
+//@   invariant 0 <= idx && idx < len(h.packets) && !hasPacketBefore && samearray(h.packets, old(h.packets)) && len(h.packets) == old(len(h.packets)) && h.numOutstanding >= 0
+//@   invariant forall(k, idx, old(pn - h.firstPacketNumber) + 1, h.packets[k] == nil, trig(h.packets, k))
+//@   invariant h.firstPacketNumber == old(h.firstPacketNumber) && h.highestPacketNumber == old(h.highestPacketNumber)
+//@   invariant implies(old(pn - h.firstPacketNumber) > 0, h.packets[0] != nil) && idx <= old(pn - h.firstPacketNumber)
+//@   modifies nothing
+
+//@ func (h *sentPacketHandler) DropPackets$2
+//@   props C06
+//@   let hist = h.appDataPackets.history
+//@   requires h != nil && h.appDataPackets != nil && arg1 != nil && 0 <= h.bytesInFlight && 0 <= arg1.Length && (!arg1.includedInBytesInFlight || arg1.Length <= h.bytesInFlight)
+//@   requires hist.hInv() && forall(k, 0, len(hist.packets), implies(hist.packets[k] != nil && !hist.packets[k].IsPathMTUProbePacket && !hist.packets[k].isPathProbePacket && (len(hist.packets[k].StreamFrames) > 0 || len(hist.packets[k].Frames) > 0), hist.numOutstanding >= 1), trig(hist.packets, k))
+//@   requires implies(len(hist.packets) > 0 && hist.firstPacketNumber <= arg0 && arg0 <= hist.highestPacketNumber, hist.packets[arg0 - hist.firstPacketNumber] != nil)
+//@   let zeroRTT = arg1.EncryptionLevel == protocol.Encryption0RTT
+//@   ensures [only-0rtt-packets-dropped] implies(!zeroRTT, !result && h.bytesInFlight == old(h.bytesInFlight) && called("(*sentPacketHistory).Remove") == 0)
+//@   ensures [dropped-once] implies(zeroRTT, result && called("(*sentPacketHistory).Remove") == 1 && h.bytesInFlight == old(h.bytesInFlight) - ite(old(arg1.includedInBytesInFlight), arg1.Length, 0) && !arg1.includedInBytesInFlight)
+//@   modifies h.bytesInFlight, arg1.includedInBytesInFlight, hist.numOutstanding, hist.packets, hist.packets[*], hist.firstPacketNumber
